@@ -146,3 +146,34 @@ Lemma equiv_main : forall lo hi segs mem selected, Forall wf_segment segs ->
   Permutation (filter (in_range lo hi) (all_rows segs mem)) selected ->
   agg_short lo hi segs mem = agg_rows selected.
 Proof. intros. rewrite agg_short_spec; auto. apply build_stats_perm; auto. Qed.
+
+(* ---- multi-column statements ---- *)
+Lemma multi_short_nth : forall n lo hi segs mem i, (i < n)%nat ->
+  nth i (agg_multi_short n lo hi segs mem) empty = agg_short lo hi (col_segments i segs) (col i mem).
+Proof.
+  intros n lo hi segs mem i H. unfold agg_multi_short.
+  rewrite (nth_indep _ empty (agg_short lo hi (col_segments 0 segs) (col 0 mem))) by (rewrite map_length, seq_length; auto).
+  rewrite (map_nth (fun i => agg_short lo hi (col_segments i segs) (col i mem)) (seq 0 n) 0%nat i).
+  rewrite seq_nth; auto.
+Qed.
+
+Lemma multi_rows_nth : forall n rows i, (i < n)%nat -> nth i (agg_multi_rows n rows) empty = agg_rows (col i rows).
+Proof.
+  intros n rows i H. unfold agg_multi_rows.
+  rewrite (nth_indep _ empty (agg_rows (col 0 rows))) by (rewrite map_length, seq_length; auto).
+  rewrite (map_nth (fun i => agg_rows (col i rows)) (seq 0 n) 0%nat i). rewrite seq_nth; auto.
+Qed.
+
+Lemma mk_segment_wf : forall rows, rows <> [] -> sorted_rows rows -> wf_segment (mk_segment rows).
+Proof. intros rows N S. repeat split; auto. Qed.
+
+(* every column of a multi-column statement is the single-column shortcut of that column: if, column by column, the
+   plain select of that field returns the stored rows of the range, the statement returns the aggregates over the rows *)
+Lemma multi_equiv : forall n lo hi segs mem (selected : nat -> list row),
+  (forall i, (i < n)%nat -> Forall wf_segment (col_segments i segs) /\
+                            Permutation (filter (in_range lo hi) (all_rows (col_segments i segs) (col i mem))) (selected i)) ->
+  agg_multi_short n lo hi segs mem = map (fun i => agg_rows (selected i)) (seq 0 n).
+Proof.
+  intros n lo hi segs mem selected H. unfold agg_multi_short. apply map_ext_in. intros i I.
+  apply in_seq in I. destruct (H i) as [W P]; [lia |]. apply equiv_main; auto.
+Qed.
